@@ -167,6 +167,7 @@ def check(ctx):
             ps[i]["base"] = json.dumps(rand_base(ctx.rng, named_refs(ps[i])))
     progs.feature_stats(ctx, ps)
     if not ctx.replay:
+        target_file_stage(ctx)
         uri_tie(ctx)
         # C03_spec_refs_closed is a theorem about Model/Eval.v: the evaluator tie
         evaltie.run(ctx, ps[: (2400 if ctx.thorough else 160)] + evaltie.repo_corpus())
@@ -203,6 +204,37 @@ def check(ctx):
             ctx.sample({"program": p["mods"][p["main"]][:300], "refs": [x[1] for x in docval.refs_of(doc)][:4]})
     finish_cov(ctx)
     return core.finish(ctx)
+
+
+def target_file_stage(ctx):
+    """the YAML text of the document is what ends up in the target file, and it reads back: two revisions of a program compiled
+    in turn by oal-cli into one target (the second one shorter), the file compared with the text built in memory"""
+    import os
+    import subprocess
+    from . import lspws
+    ok, out = core.ensure_repo_bins()
+    if not ok:
+        ctx.broken.append("build of the binaries of /repo failed: " + out[-300:])
+        return
+    prev = "let @c = { 'id int, 'orders [@o] };\nlet @o = { 'total num, 'lines [{ 'sku str, 'qty int }] };\n" + \
+           "".join("res /customers/{ 'id int }/r%d on get -> <@c> :: <status=404, { 'why str }>;\n" % i for i in range(6))
+    cur = "let @c = { 'id int };\nres /customers/{ 'id int } on get -> <@c>;\n"
+    root = lspws.fresh_dir("c03_target")
+    ref = progs.compile_many([{"mods": {"file://%s/main.oal" % root: cur}, "main": "file://%s/main.oal" % root}])[0]
+    for src in (prev, cur):
+        with open(os.path.join(root, "main.oal"), "w") as f:
+            f.write(src)
+        r = subprocess.run([core.CLI, "-m", "main.oal", "-t", "api.yaml"], cwd=root, capture_output=True, timeout=60)
+        if r.returncode != 0:
+            ctx.broken.append("oal-cli fails on the programs of the target-file stage: " + r.stderr.decode("utf8", "replace")[-200:])
+            return
+    ctx.cov["evaluations"] += 2
+    got = open(os.path.join(root, "api.yaml"), "rb").read().decode("utf8", "replace")
+    if ref.get("status") == "ok" and got != ref["yaml"]:
+        ctx.violation("the target file does not hold the YAML text of the document (it does not parse back to it)",
+                      {"program": {"mods": {"main.oal": cur}, "main": "main.oal"}, "earlier_revision": prev}, "%d bytes" % len(ref["yaml"]), "%d bytes" % len(got))
+    else:
+        ctx.count("target_file_reads_back")
 
 
 def validate(ctx, p, r):
